@@ -282,6 +282,8 @@ def dependency_closure(ctx: Ctx) -> None:
     from ..engines.structure import mutable_default_rule
     from ..engines.tables import check_tables_immutable
     mutable_default_rule(sub, reach | set(roots))
+    from ..engines.structure import lazy_state_rule
+    lazy_state_rule(sub, {fi.qualname for fi in ctx.p.all_functions()})      # object state anywhere in the library
     check_tables_immutable(sub, "IMMUT")
     for o in sub.obligations:
         ctx.obligations.append(o)
